@@ -468,57 +468,9 @@ func (bg *Reader) Seek(off Offset) error {
 			bg.control <- bg.current.NextBase()
 		}
 		if !ok {
-			var dec *decompressor
-			if bg.dec != nil {
-				dec = bg.dec
-			} else {
-				select {
-				case dec = <-bg.waiting:
-				case dec = <-bg.working:
-					blk, err := dec.wait()
-					if err == nil {
-						if blk.Base() == off.File {
-							// This decompressor had the block we
-							// wanted. It becomes the current block,
-							// so it must not also be cached.
-							bg.current = blk
-							// Discard a redirection the read-ahead has
-							// not taken yet; sending would block with
-							// the decompressor it needs in our hands.
-							select {
-							case <-bg.control:
-							default:
-							}
-							bg.control <- bg.current.NextBase()
-							bg.waiting <- dec
-							dec = nil
-						} else {
-							bg.keep(blk)
-						}
-					}
-				}
-			}
-			if dec != nil {
-				// Synchronously decompress the requested block using
-				// the selected decompressor. Not necessary if that
-				// decompressor had the block ready, as determined
-				// above.
-				bg.current, bg.err = dec.
-					using(bg.current).
-					nextBlockAt(off.File, rs).
-					wait()
-				if bg.dec == nil {
-					select {
-					case <-bg.control:
-					default:
-					}
-					bg.control <- bg.current.NextBase()
-					bg.waiting <- dec
-				}
-				bg.Header = bg.current.header()
-				if bg.err != nil {
-					return bg.err
-				}
+			err := bg.loadBlock(off.File, rs)
+			if err != nil {
+				return err
 			}
 		}
 	}
@@ -529,6 +481,65 @@ func (bg *Reader) Seek(off Offset) error {
 	}
 
 	return bg.err
+}
+
+// loadBlock makes the block at base the current block, taking it from the
+// head of the read-ahead queue if it is there and otherwise decompressing it
+// synchronously, and restarts the read-ahead after it.
+func (bg *Reader) loadBlock(base int64, rs io.ReadSeeker) error {
+	var dec *decompressor
+	if bg.dec != nil {
+		dec = bg.dec
+	} else {
+		select {
+		case dec = <-bg.waiting:
+		case dec = <-bg.working:
+			blk, err := dec.wait()
+			if err == nil {
+				if blk.Base() == base {
+					// This decompressor had the block we
+					// wanted. It becomes the current block,
+					// so it must not also be cached.
+					bg.current = blk
+					// Discard a redirection the read-ahead has
+					// not taken yet; sending would block with
+					// the decompressor it needs in our hands.
+					select {
+					case <-bg.control:
+					default:
+					}
+					bg.control <- bg.current.NextBase()
+					bg.waiting <- dec
+					dec = nil
+				} else {
+					bg.keep(blk)
+				}
+			}
+		}
+	}
+	if dec != nil {
+		// Synchronously decompress the requested block using
+		// the selected decompressor. Not necessary if that
+		// decompressor had the block ready, as determined
+		// above.
+		bg.current, bg.err = dec.
+			using(bg.current).
+			nextBlockAt(base, rs).
+			wait()
+		if bg.dec == nil {
+			select {
+			case <-bg.control:
+			default:
+			}
+			bg.control <- bg.current.NextBase()
+			bg.waiting <- dec
+		}
+		bg.Header = bg.current.header()
+		if bg.err != nil {
+			return bg.err
+		}
+	}
+	return nil
 }
 
 // LastChunk returns the region of the BGZF file read by the last
@@ -659,13 +670,21 @@ func (bg *Reader) nextBlock() error {
 				ok = true
 				break
 			}
-			if err == nil {
-				bg.keep(bg.current)
-				bg.current = nil
+			if err != nil {
+				// The read-ahead stopped at a block that is
+				// not the wanted one.
+				break
 			}
+			bg.keep(bg.current)
+			bg.current = nil
 		}
 		if !ok {
-			panic("bgzf: unexpected block")
+			// The read-ahead queue does not lead to the wanted
+			// block: it was filled from a position, or skipping
+			// blocks found in the cache, that no longer holds.
+			// Load the block directly and restart the read-ahead.
+			rs, _ := bg.r.(io.ReadSeeker)
+			err = bg.loadBlock(base, rs)
 		}
 	}
 	if err != nil {
